@@ -82,12 +82,14 @@ def run(ck, prog, tier, load):
               "Inner.len %s= chunk.len() on every path (%d matching write(s))" % ("+" if op == "Add" else "-", len(good)),
               witness=b.path_lines(wit))
 
-    def from_arg(name):
-        return lambda e: any(r[0] == "arg" and r[2] == name for r in e_roots(e))
+    def from_arg(fn):
+        # the chunk parameter, identified by its type (bytes::Bytes), not by its name
+        locs = args_of_type(inner[fn], r"(^|::)Bytes$")
+        return lambda e: root_is(e, locs)
 
     what_starts = None
-    len_update(inner["feed_data"], "Add", from_arg("data"), "C07-a.len-add", "push")
-    len_update(inner["unread_data"], "Add", from_arg("data"), "C07-a.len-add", "push")
+    len_update(inner["feed_data"], "Add", from_arg("feed_data"), "C07-a.len-add", "push")
+    len_update(inner["unread_data"], "Add", from_arg("unread_data"), "C07-a.len-add", "push")
     # pop: from the Some edge of pop_front to every return
     pn = inner["poll_next"]
     pops = [bb for bb, t in pn.calls(r"VecDeque::pop_front$")]
